@@ -396,11 +396,11 @@ func c03AppHistory(t *testing.T, col *Collector, seed int64, hi int, verbose boo
 			if _, t2 := w.App.TierKeeper.GetMembershipTier(w.QCtx(), sender); !t2.Discount.IsNil() && t2.Discount.GT(discount) {
 				c.Fee = ammtypes.ApplyDiscount(pool0.PoolParams.SwapFee, t2.Discount).BigInt().String()
 			}
-			// slack: one unit per piece and per rounding step, the 1e-8 relative precision of Pow for unequal weights, and
+			// slack: one unit per piece and per rounding step, the 1e-8 relative precision of EACH Pow evaluation for unequal weights, and
 			// reserve/1e18 per piece for the ratio rounding of solveConstantFunctionInvariant (the open finding's cause)
 			slack := func(v *big.Int) *big.Int {
 				sl := big.NewInt(6)
-				sl.Add(sl, new(big.Int).Div(v, big.NewInt(50_000_000)))
+				sl.Add(sl, new(big.Int).Div(v, big.NewInt(20_000_000))) // three Pow evaluations (two pieces + the one-piece reference), each within 1e-8: 5e-8 in all
 				for _, b := range []string{c.Bin, c.Bout} {
 					sl.Add(sl, new(big.Int).Div(c03BigS(b), new(big.Int).Exp(big.NewInt(10), big.NewInt(17), nil)))
 				}
